@@ -107,8 +107,19 @@ func runC14(p *Prog, r *Report) {
 			q.Req(R, "delay-is-old-reconnTime", af[0].Args[0] == "recv.reconnTime" && loadBeforeStores(dl.fn, call.Call.Args[0]), af.Pos(p),
 				"delay argument is reconnTime read before any growth", "the redial delay is not the pre-growth reconnTime (first retry would not be ReconnectTime)")
 			q.Req(R, "afterfunc-target-redial", strings.Contains(af[0].Args[1], "redial"), af.Pos(p), "callback is redial", "AfterFunc callback is not d.redial")
-			q.Req(R, "only-when-redial", af.AllGuarded("φredial"), af.Pos(p), "scheduled only on the redial path", "a synchronous (non-redial) failure schedules a retry")
-			q.Req(R, "not-for-ErrClosed", af.AllGuarded("recv.d.Dial()#1 != ErrClosed"), af.Pos(p), "ErrClosed from the transport schedules nothing", "a retry is scheduled even when the transport dialer reports ErrClosed")
+			// the whole decision "schedule another attempt", compared with its specification over
+			// every combination of (asked to redial, asynchronous dialer, closed, outcome of
+			// the attempt): however the function spells it (flags, merged conditions, early
+			// returns), and an extra condition is as wrong as a missing one
+			{
+				const errD = "recv.d.Dial()#1"
+				dom := map[string][]int64{"arg1": {0, 1}, "recv.asynch": {0, 1}, "recv.closed": {0, 1}, errD: {0, 1, 2}, "ErrClosed": {2}}
+				res := ComparePred(af[0].In.Block(), dom, nil, func(env map[string]int64) bool {
+					return (env["arg1"] != 0 || env["recv.asynch"] != 0) && env["recv.closed"] == 0 && env[errD] == 1
+				})
+				q.Req(R, "retry-decision-exact", res.OK && res.Undec == "", af.Pos(p), "a retry is scheduled exactly when (redial or asynch) and not closed and the attempt failed with something other than ErrClosed",
+					"dial schedules a retry under the wrong condition (must be: (redial || asynch) && !closed && err != nil && err != ErrClosed): "+res.Counter+res.Undec)
+			}
 			q.Req(R, "under-lock", af.AllHeld(coreDialerMu), af.Pos(p), "under the dialer lock", "AfterFunc/redialer store not under the dialer lock")
 			str := dl.Ev("store", "recv.redialer")
 			q.Req(R, "timer-stored", len(str) == 1 && strings.HasPrefix(str[0].Args[0], "time.AfterFunc("), str.Pos(p), "timer kept in d.redialer (so Close can stop it)", "the retry timer is not stored in d.redialer")
@@ -137,28 +148,21 @@ func runC14(p *Prog, r *Report) {
 				q.Req(R, "clamp-on-every-path", cmp != nil && allPathsPass(grow[0].In, af[0].In, cmp) && len(grow[0].Guard) == len(clamp[0].Guard)-1, clamp.Pos(p),
 					"every path from the growth passes the clamp test", "some path from the growth of reconnTime skips the clamp test")
 			}
-			// failure path when !redial returns the error
-			// `if !redial || d.closed { return err }`: the return block is entered by the
-			// edges !redial and closed only
-			var rets Sel
-			for _, e := range dl.Ev("return", "") {
-				if len(e.Args) != 1 || e.Args[0] != "recv.d.Dial()#1" {
-					continue
-				}
-				ea := edgeAtomsOf(e.In.Block())
-				hasNR, only := hasAtom(e.Guard, "!φredial"), true
-				for _, a := range ea {
-					if litEq(a, "!φredial") {
-						hasNR = true
-					} else if a != "recv.closed" {
-						only = false
+			// every failed attempt returns the transport's error to the caller
+			{
+				const errD = "recv.d.Dial()#1"
+				nf, bad := 0, ""
+				for _, e := range dl.Ev("return", "") {
+					if !hasAtom(e.Guard, errD+" != nil") || len(e.Args) != 1 {
+						continue
+					}
+					nf++
+					if e.Args[0] != errD {
+						bad = p.InstrPos(e.In) + " returns " + e.Args[0]
 					}
 				}
-				if hasNR && only {
-					rets = append(rets, e)
-				}
+				q.Req(R, "sync-failure-returned", nf >= 1 && bad == "", dl.Pos(), "a failed attempt returns the transport error (so a synchronous Dial reports it)", "a dial failure is not returned to the caller: "+bad)
 			}
-			q.Req(R, "sync-failure-returned", len(rets) == 1, rets.Pos(p), "a failure that is not to be retried (synchronous Dial, or the dialer was closed meanwhile) returns the transport error", "a synchronous dial failure is not returned to the caller")
 			// nothing is scheduled once the dialer has been closed
 			q.Req(R, "no-timer-once-closed", len(af) == 1 && af.AllGuarded("!recv.closed") && closedReadInSameSection(p, dl.fn, af[0].In), af.Pos(p), "the redial timer is armed only under !closed, tested in the critical section that arms it", "the redial timer can be armed on a dialer that was closed while the connection attempt was in flight (closed is not re-tested in the critical section that arms the timer)")
 		}
